@@ -339,7 +339,8 @@ static void run_case(const char* id, unsigned long long seed, int strategy, size
           uint64_t h = vec->_retire_list._head.B::load(std::memory_order_relaxed);
           Node* node = (Node*)(h & 0x0000FFFFFFFFFFFFull);
           if (node && (void*)node->data == trk::superseded_by[t]) {
-            uint64_t unit = ((1000000ull + trk::now() / 1000000000ull) >> 6) & 0xFFFF;
+            // the library's own clock-to-stamp function (private static), on the virtual clock
+            uint64_t unit = internal::concurrent_vector::RetireList<BT, typename Vec::BlockTableDeleter>::get_current_timestamp();
             if ((h >> 48) != unit) trk::stale_push = true;
           }
         }
